@@ -118,11 +118,37 @@ func rulesC14(e *Engine, r *Report) {
 	// ---------------------------------------------------------------- R14.1b
 	r.Rule("R14.1b", "the validators are real: validateNames returns nil only if filepath.IsLocal holds for the required name and for every non-empty optional name; validateParts returns nil only after every part's name, rename target and predecessor went through validateNames")
 	if fn := needFn(e, r, "R14.1b", "http.validateNames"); fn != nil {
+		// the locality predicate: filepath.IsLocal itself, or a function of package http built on it
+		P := "filepath.IsLocal"
+		for _, in := range e.findInstrs(fn, "call(http.«[A-Za-z]+»)(p0)", false) {
+			P = e.CalleeKey(in.(ssa.CallInstruction).Common())
+		}
+		rootRefused := false
+		if P != "filepath.IsLocal" {
+			if pf := e.Fn(P); pf != nil {
+				cl := labeler(C("call(filepath.IsLocal)(p0)", "local"))
+				okAll, n := true, 0
+				for _, rw := range e.returnWorlds(r, "R14.1b", pf, cl) {
+					v := e.Canon(rw.In.(*ssa.Return).Results[0])
+					if v == "false" {
+						continue
+					}
+					n++
+					if !(rw.W.Has("local") && (v == `(call(filepath.Clean)(p0) != ".")` || v == `("." != call(filepath.Clean)(p0))`)) {
+						okAll = false
+					}
+				}
+				rootRefused = okAll && n > 0
+			}
+		}
+		r.Check(rootRefused, "R14.1b", "http.validateNames: a name that resolves to the directory itself is refused", e.Pos(fn.Pos()),
+			"the locality test is "+P+": names such as \".\", \"./\" or \"a/..\" pass filepath.IsLocal but name the source's directory itself - the partial and companion are then created NEXT TO that directory (<stage>/<source>.part) and the delivery targets the directory", 1, P)
+		isP := "call(" + P + ")"
 		cls := labeler(
-			C("call(filepath.IsLocal)(p0)", "requiredLocal"),
-			C("!call(filepath.IsLocal)(p1[§])", "optionalBad"),
+			C(isP+"(p0)", "requiredLocal"),
+			C("!"+isP+"(p1[§])", "optionalBad"),
 			C(`(p1[§] == "")`, "optionalEmpty"),
-			C("call(filepath.IsLocal)(p1[§])", "optionalLocal"),
+			C(isP+"(p1[§])", "optionalLocal"),
 			C("(builtin(len)(p1) <= §)", "allSeen"),
 		)
 		n := 0
@@ -147,7 +173,7 @@ func rulesC14(e *Engine, r *Report) {
 					if t, ok := b.Instrs[len(b.Instrs)-1].(*ssa.If); ok {
 						conds = append(conds, e.CondStr(t.Cond, b.Succs[0] == s))
 					}
-					r.Check(hasStr(conds, `(p1[§] == "")`) || hasStr(conds, "call(filepath.IsLocal)(p1[§])"), "R14.1b", fmt.Sprintf("http.validateNames: the loop moves on only past an empty or local name (b%d)", b.Index), e.Pos(fn.Pos()),
+					r.Check(hasStr(conds, `(p1[§] == "")`) || hasStr(conds, isP+"(p1[§])"), "R14.1b", fmt.Sprintf("http.validateNames: the loop moves on only past an empty or local name (b%d)", b.Index), e.Pos(fn.Pos()),
 						"an optional name that is neither empty nor local is skipped over", 1, conds...)
 				}
 			}
